@@ -185,10 +185,17 @@ def run(ctx):
         else:
             add(*g)
 
+    # behaviour the environment can switch on: a share of the command lines runs with every environment variable the source names, set
+    variants = ctx.env_variants()
+    envs = {}
+    for k in range(len(cases)):
+        if variants and k % 3 == 2:
+            envs[id(cases[k][1])] = dict(os.environ, **variants[(k // 3) % len(variants)])
+
     def one(case):
         argv, st = case
         try:
-            p = subprocess.run([opgen] + argv, capture_output=True, timeout=60, cwd=ctx.scratch)
+            p = subprocess.run([opgen] + argv, capture_output=True, timeout=60, cwd=ctx.scratch, env=envs.get(id(st)))
         except subprocess.TimeoutExpired:
             return dict(st, op="cli", exit=-1, out=[], errn=0, argv=" ".join(argv))
         out = p.stdout.decode("utf-8", "replace").split("\n")
